@@ -66,6 +66,7 @@ type rpc =
 | KEmpty
 | KChans
 | KTake
+| KRun
 | RSusp
 | RPd0
 | RPd1
@@ -86,6 +87,7 @@ type res =
 | ROk of nat
 | REmpty
 | RDisc
+| RCancel
 
 type spc =
 | SIdle
@@ -139,6 +141,8 @@ type action =
 | DropPort
 | RStep
 | Worker
+| Spur
+| RCan
 | Send
 | DropChan
 | SStep
@@ -205,6 +209,8 @@ val is_r : aux -> nat -> bool
 val is_s : aux -> nat -> bool
 
 val wake : st -> action list
+
+val cancel_acts : st -> action list option
 
 val in_pop : st -> bool
 
